@@ -302,7 +302,7 @@ def run(ctx):
 
         # ---- sweep: each engine against the reference model ------------------------------
         n = ctx.n(160, 3000)
-        batch = sweep.gen_batch(ctx, n)
+        batch = sweep.gen_batch(ctx, n, neutral_fraction=0.4)
         ctx.require(len(batch) >= n * 0.6, "generator produced too few in-zone programs")
 
         def do_prog(item):
